@@ -5,7 +5,9 @@ from common import *
 from runner import Script, Cfg
 
 ID = "C11"
-THEOREMS = ["C11_rpc_stream", "C11_http_stream", "C11_http_stream_segmentation", "C11_refuted_short_first_segment",
+THEOREMS = ["C11_current_table", "C11_stream_join", "C11_identified_in_a_segment", "C11_rpc_stream", "C11_rpc_stream_first",
+            "C11_http_stream", "C11_http_stream_first", "C11_http_stream_segmentation", "C11_http_outs_segmentation",
+            "C11_short_first_segment_answered", "C11_nonvacuous", "C11rpc.C11_rpc_first_call", "C11rpc.C11_rpc_cut_inside_signature",
             "C11http.C11_http_parse_app", "C11http.C11_http_segments", "C11http.C11_http_per_segment", "Env.the_env_ok"]
 MONITORS = []
 RULE = ("request streams (HTTP requests of all shapes, ONC-RPC/TCP calls with credentials and verifiers, with trailing bytes, "
@@ -16,11 +18,12 @@ RULE = ("request streams (HTTP requests of all shapes, ONC-RPC/TCP calls with cr
         "shortest prefix that, sent as ONE segment, is answered (measured on the implementation and on the model); every "
         "segment before the one containing that offset must get a bare ACK, that segment the reply (same bytes modulo "
         "Date), for every segmentation whose first segment holds the whole protocol signature; segmentations that cut "
-        "inside the signature form the known class short_first_segment. non-trivial = segmentation with >= 2 segments")
+        "inside the signature are ordinary cases since the prefix-buffer fix. non-trivial = segmentation with >= 2 segments")
 TRUSTED = ["Coq 8.16.1 kernel + vm_compute", "extraction (ExtrOcamlBasic) + ocaml/model_run.ml", "harness/*.py",
            "Rust hook verif_driver.rs", "pnet accessor semantics as modelled"]
-ASSUMPTIONS = ["known class short_first_segment: the first segment ends inside the protocol signature; proto::repl hands the "
-               "handler only the segment in which identification completed, so the request is lost (known finding)"]
+ASSUMPTIONS = ["the former known class short_first_segment (first segment ends inside the protocol signature) was repaired in "
+               "/repo (prefix buffer of at most 64 bytes per unidentified flow); its witnesses stay in the corpus and are "
+               "now ordinary cases that must be answered"]
 
 KEY = (21, 22)
 SRC, DST, SPORT, DPORT = "10.0.0.9", "10.0.0.1", 40123, 8080
@@ -159,8 +162,8 @@ def evaluate_custom(scripts, drivers):
             stats["segmentations"] += 1
             stats["monitor_evals"] += 1
             outs = [app_of(o) for o in io[si]]
-            known = cuts[0] < siglen
-            if known:
+            known = False          # cuts inside the signature were a known finding until fix (prefix buffer): now ordinary cases
+            if cuts[0] < siglen:
                 stats["known_class_cases"] += 1
             if ref is None:
                 # corpus witness or a stream never answered: every segment must get a bare ACK
@@ -171,7 +174,7 @@ def evaluate_custom(scripts, drivers):
                     if bad:
                         issues.append({"kind": "monitor", "script": s, "frame": len(outs) - 1, "driver": dname,
                                        "monitor": "C11-segmentation", "impl": repr(outs)[:300],
-                                       "model": "a complete request must be answered", "class": "short_first_segment"})
+                                       "model": "a complete request must be answered", "class": None})
                     continue
             else:
                 off, rep = ref
